@@ -1,6 +1,6 @@
 (** C07 — pinned header validation accepts exactly the authenticated header. *)
 From ZV Require Import Base.Bytes Format.Header Format.ParseImpl Format.Pins Format.PinsProofs
-     Format.ParseLemmas Format.ParseProofs Format.PinsCompose.
+     Format.ParseLemmas Format.ParseProofs Format.PinsCompose Format.PinsSticky.
 Local Open Scope Z_scope.
 
 (** T7.1 complete over the finite domain of [char]: hex_to_int maps exactly 0-9a-fA-F to
@@ -59,3 +59,35 @@ Proof. vm_compute. reflexivity. Qed.
 Example C07_ex_nonhex_rejected :
   snd (set_opts [SetType 3; SetDigest [58;49;97;66;48;49;97;66;48;49;97;66;48;49;97;66;48;49;97;66;48;49;97;66;48;49;97;66;48;49;70;102]]) = [true; false].
 Proof. vm_compute. reflexivity. Qed.
+
+(** T7.7 an accepted digest pin is never lost on a usable context: after ANY sequence of option calls and
+    zck_clear_error calls, a context without a fatal error holds exactly the last accepted digest (none if none
+    was accepted).  A refused later attempt either keeps the old pin or kills the context for good. *)
+Theorem C07_pin_sticky : forall ops,
+  usable (fst (set_opts ops)) ->
+  pr_digest (fst (set_opts ops)) = last_accepted ops (snd (set_opts ops)) None.
+Proof. exact pin_sticky. Qed.
+Print Assumptions C07_pin_sticky.
+
+Theorem C07_pin_survives : forall st d later,
+  pr_digest st = Some d ->
+  none_accepted later (snd (run_from st later)) ->
+  usable (fst (run_from st later)) ->
+  pr_digest (fst (run_from st later)) = Some d.
+Proof. exact pin_survives. Qed.
+Print Assumptions C07_pin_survives.
+
+(** non-vacuity: a recoverable refusal (negative size) + clear keeps the pin and the context usable; a
+    non-hex second attempt kills the context (clear-error fails, every later call is refused) *)
+Example C07_ex_sticky_usable :
+  let ops := [SetType 3; SetDigest [48;49;97;66;48;49;97;66;48;49;97;66;48;49;97;66;48;49;97;66;48;49;97;66;48;49;97;66;48;49;70;102];
+              SetSize (-1); ClearErr; SetSize 100] in
+  snd (set_opts ops) = [true; true; false; true; true] /\ pr_err (fst (set_opts ops)) = 0%N /\
+  pr_digest (fst (set_opts ops)) <> None.
+Proof. vm_compute. repeat split; discriminate. Qed.
+Example C07_ex_sticky_dead :
+  let ops := [SetType 3; SetDigest [48;49;97;66;48;49;97;66;48;49;97;66;48;49;97;66;48;49;97;66;48;49;97;66;48;49;97;66;48;49;70;102];
+              SetDigest [58;49;97;66;48;49;97;66;48;49;97;66;48;49;97;66;48;49;97;66;48;49;97;66;48;49;97;66;48;49;70;102];
+              ClearErr; SetSize 100] in
+  snd (set_opts ops) = [true; true; false; false; false] /\ pr_err (fst (set_opts ops)) = 2%N.
+Proof. vm_compute. split; reflexivity. Qed.
